@@ -83,6 +83,10 @@ fn header_extremes() -> Vec<(Spec, Vec<u8>, String)> {
     out
 }
 
+/// Aggregator identifiers no instance has (instances have at most 254 aggregators), chosen so that
+/// some alias a real identifier modulo 2^8, 2^16 or 2^32.
+pub const WILD_IDS: [usize; 20] = [2, 3, 254, 255, 256, 257, 258, 511, 512, 513, 65535, 65536, 65537, 1 << 32, (1 << 32) + 1, usize::MAX - 255, usize::MAX - 254, usize::MAX, 1 << 63, (1 << 63) + 1];
+
 fn alloc_bound(spec: &Spec, len: usize) -> usize {
     (64 << 10) + 64 * len + 8 * nominal_len(spec)
 }
@@ -106,7 +110,7 @@ impl Check for C08 {
     type Case = Case;
     const ID: &'static str = "C08";
     fn rule(&self) -> String {
-        "every (type, parameter) of a fixed table × every byte string of length ≤ 2 (≤ 3 for header-bearing types in the thorough tier), enumerated; header fields (level, counts, u32 length prefixes, tags) at {0,1,…,0x7F..,0x80..,0xFF..−1,0xFF..} × body lengths around the exact one, enumerated; generated: near-valid strings from the C07 grammar over generated parameters, each with all single-bit flips and all truncations, and spliced strings. Monitors: no panic (overflow checks on), thread-local peak allocation and largest single request ≤ 64 KiB + 64·len + 8·(nominal encoding size for the parameter), per-case watchdog. Non-trivial = non-empty string; enumerated strings are distinct by construction, generated base strings by hash; the bit-flip/truncation mutants derived from a base string are executed (evaluations) but conservatively NOT counted in distinct_nontrivial".into()
+        "every (type, parameter) of a fixed table × every byte string of length ≤ 2 (≤ 3 for header-bearing types in the thorough tier), enumerated; header fields (level, counts, u32 length prefixes, tags) at {0,1,…,0x7F..,0x80..,0xFF..−1,0xFF..} × body lengths around the exact one, enumerated; generated: near-valid strings from the C07 grammar over generated parameters, each with all single-bit flips and all truncations, spliced strings, and near-valid strings decoded under aggregator identifiers that do not exist (2…2^63+1, incl. values aliasing a real identifier modulo 2^8/2^16/2^32). Monitors: no panic (overflow checks on), thread-local peak allocation and largest single request ≤ 64 KiB + 64·len + 8·(nominal encoding size for the parameter), per-case watchdog. Non-trivial = non-empty string; enumerated strings are distinct by construction, generated base strings by hash; the bit-flip/truncation mutants derived from a base string are executed (evaluations) but conservatively NOT counted in distinct_nontrivial".into()
     }
     fn assumptions(&self) -> Vec<String> {
         vec!["allocation is measured with a counting global allocator on the decoding thread; requests above 2 GiB are refused so that an attacker-sized allocation aborts the (supervised) process deterministically".into()]
@@ -124,6 +128,26 @@ impl Check for C08 {
                 Case::Str { spec, bytes: Hex(bytes), how: "splice".into() }
             }),
             2 => (spec_strategy(), proptest::collection::vec(any::<u8>(), 0..200)).prop_map(|(spec, bytes)| Case::Str { spec, bytes: Hex(bytes), how: "random".into() }),
+            // decoding parameters outside the instance: aggregator identifiers that do not exist,
+            // including ones that alias a real identifier in a narrower integer type; the string is
+            // a canonical (or near-valid) encoding for the identifier's low bit
+            2 => (spec_strategy(), any::<u64>(), 0usize..WILD_IDS.len(), 0u64..9).prop_map(|(spec, seed, k, bad)| {
+                let bytes = build(&spec, seed, bad).bytes;
+                let id = WILD_IDS[k];
+                let spec = match spec {
+                    Spec::P3Input(c, _) => Spec::P3Input(c, id),
+                    Spec::P3State(c, _) => Spec::P3State(c, id),
+                    Spec::P3Continuation(c, _) => Spec::P3Continuation(c, id),
+                    Spec::PopInput { bits, aes, .. } => Spec::PopInput { bits, aes, agg: id },
+                    Spec::PopState { bits, .. } => Spec::PopState { bits, agg: id },
+                    Spec::PopContinuation { bits, .. } => Spec::PopContinuation { bits, agg: id },
+                    Spec::Prio2Input { len, .. } => Spec::Prio2Input { len, agg: id },
+                    Spec::Prio2State { len, .. } => Spec::Prio2State { len, agg: id },
+                    Spec::Prio2Continuation { len, .. } => Spec::Prio2Continuation { len, agg: id },
+                    other => other,
+                };
+                Case::Str { spec, bytes: Hex(bytes), how: "wild-agg-id".into() }
+            }),
         ]
         .boxed()
     }
